@@ -1024,8 +1024,13 @@ func genC12(seed uint64, tier string) Scenario {
 			sc.Actions = append(sc.Actions, Action{Op: "builtin", Name: g.Pick("MethodNotFound", "MethodNotImplemented", "InvalidParameter", "InterfaceNotFound"), Arg: g.String(16)})
 		case 2:
 			// a refused error name followed by a proper reply
-			sc.Actions = append(sc.Actions, Action{Op: "error", Name: g.Pick("E", "", ".E", "org.varlink.service.X", "org.varlink.service.InvalidParameter", "."), Params: g.maybeParams(0)},
-				Action{Op: "reply", Params: g.maybeParams(0)})
+			// ... or by a proper error: a refused attempt changes nothing
+			sc.Actions = append(sc.Actions, Action{Op: "error", Name: g.Pick("E", "", ".E", "org.varlink.service.X", "org.varlink.service.InvalidParameter", "."), Params: g.maybeParams(0)})
+			if g.Pct(50) {
+				sc.Actions = append(sc.Actions, Action{Op: "error", Name: "a.b." + g.Pick("Retry", "E"), Params: g.maybeParams(0)})
+			} else {
+				sc.Actions = append(sc.Actions, Action{Op: "reply", Params: g.maybeParams(0)})
+			}
 		default:
 			p := g.maybeParams(g.IntN(2))
 			if g.Pct(20) {
